@@ -1,11 +1,17 @@
 (* C20 -- executable model of the fan-out machinery.  Definitions only.
 
-   Mirrors pkg/output/file_output_handlers.go:
-     MultiOutputHandlerManager  = [mgr]   (MRU-first list of open handlers, the evictedFilenames set, a file store)
-     getOutputHandlerFor        = [acquire]  (hit: lruTouch; miss: evict lruTail when len >= capacity, then open
-                                              in append mode iff mgr.append or the name was evicted, with a FRESH writer)
+   Mirrors pkg/output/file_output_handlers.go AS REPAIRED by the fix for finding lru-evict-reopen-repeats-header
+   (the model tied to the implementation is [mgrR] / [runR] / [finalR] near the end of this file):
+     MultiOutputHandlerManager  = [mgrR]  (MRU-first list of open handlers, the suspendedHandlers map, a file store)
+     getOutputHandlerFor        = [acquireR] (hit: lruTouch; miss: FileOutputHandler.suspend() on lruTail when len >= capacity
+                                              -- flush, close the file, KEEP the record writer --, then resume() the handler
+                                              of that name if it is suspended (O_APPEND, same writer), else a new handler
+                                              (O_APPEND iff mgr.append, else O_TRUNC) with a fresh writer)
      FileOutputHandler.WriteRecordAndContext / WriteString / Close = [w_rec] / IRaw / [w_end]
-     MultiOutputHandlerManager.Close = [close_all]
+     MultiOutputHandlerManager.Close = [finalR] (every handler, open or suspended, gets its writer's end-of-stream text)
+   The manager as it was BEFORE the repair ([mgr] / [run] / [final]: eviction closes the handler, its writer emits the
+   end-of-stream text, a later use re-opens in append mode with a FRESH writer) is kept: the theorems
+   C20_unrepaired_manager_* show what it did wrong; it is no longer tied to the implementation.
    and the per-format record writers of pkg/output/record_writer_{dkvp,nidx,json_jsonl,csv}.go as far as their
    stream state goes (CSV: needToPrintHeader + firstRecordKeys; JSON: wroteAnyRecords).
 
@@ -308,11 +314,11 @@ Definition run_chain (vs : list verb) (cut : nat) (recs : list record) := chain 
    distinct targets of a history, most recently used first *)
 Definition recency (ts : list target) : list target := fold_left (fun acc t => t :: rm t acc) ts [].
 
-(* ---------------------------------------------------------------- REPAIRED variant (keep_writer_on_evict).
-   What a repair of finding lru-evict-reopen-repeats-header has to do, as a model: eviction flushes and closes the
-   file but keeps the handler's record writer (no end-of-stream text is written); a later use re-opens the file in
-   append mode and RESUMES that writer; Close() also finishes the targets that are still evicted.
-   Not tied to the implementation (today's code is the variant above); theorem C20_one_document_repaired_manager. *)
+(* ---------------------------------------------------------------- THE manager (file_output_handlers.go after the repair).
+   Eviction = FileOutputHandler.suspend(): flushes and closes the file but keeps the handler with its record writer
+   (suspendableRecordWriter holds back the end-of-stream call, so no closing text is written and PPRINT keeps its batch);
+   a later use = resume(): re-opens the file in append mode and continues with that writer; Close() also finishes
+   the handlers that are still suspended.  Tied to the implementation by Harness.chk. *)
 Record mgrR := MgrR {
   r_open : list (target * wstate);
   r_susp : list (target * wstate);      (* suspended writers of evicted targets *)
